@@ -445,7 +445,8 @@ class C15B(EngineBase):
         depth = r.choice([1, 1, 2, 3])
         exitk = r.choice(["crash", "crash", "crash", "exception", "return", "break", "normal",
                           "generator_close", "decorator", "decorator_exception", "reuse_cm",
-                          "reenter_cm", "decorator_recursive", "invalid_mode"])
+                          "reenter_cm", "decorator_recursive", "invalid_mode",
+                          "deferred_cm", "deferred_decorator"])
         nest = [r.choice(MODES) for _ in range(depth)]
         if exitk == "invalid_mode":
             # a name that is not a mode: whoever raises (the block at entry or
@@ -637,6 +638,44 @@ class C15B(EngineBase):
                         rec(1 + cfg["exit_at"] % 2)
                     except UserError:
                         pass
+                elif cfg["exit"] in ("deferred_cm", "deferred_decorator") and level == len(modes) - 1:
+                    # the manager (or the decorated function) is made first, the
+                    # session default is changed afterwards, and only then is the
+                    # block entered: what must come back on exit - normal or via
+                    # an exception - is the default found at *entry*
+                    other = MODES[(MODES.index(before) + 1 + cfg["exit_at"]) % len(MODES)] \
+                        if before in MODES else MODES[cfg["exit_at"] % len(MODES)]
+
+                    def guarded():
+                        if get() != modes[level]:
+                            checks.append(("mode-inside-block", f"level {level} (deferred)"))
+                        run_body()
+                        if cfg["exit_at"] % 2:
+                            raise UserError("user code failed")
+                    try:
+                        if cfg["exit"] == "deferred_cm":
+                            cm = core.sr.default_tensordot_mode(modes[level])
+                            core.sr.set_default_tensordot_mode(other)
+                            entry = get()
+                            try:
+                                with cm:
+                                    guarded()
+                            except UserError:
+                                pass
+                        else:
+                            decorated2 = core.sr.default_tensordot_mode(modes[level])(guarded)
+                            core.sr.set_default_tensordot_mode(other)
+                            entry = get()
+                            try:
+                                decorated2()
+                            except UserError:
+                                pass
+                        if cfg["inner_set"] is None and get() != entry:
+                            checks.append(("mode-restored-on-exit",
+                                           f"{cfg['exit']}: default is {get()!r} after the block, "
+                                           f"was {entry!r} when it was entered"))
+                    finally:
+                        core.sr.set_default_tensordot_mode(before)
                 elif cfg["exit"] == "reuse_cm" and level == len(modes) - 1:
                     # one manager object entered twice: whatever the second
                     # entry does (contextlib refuses it), the default survives
